@@ -374,6 +374,34 @@ class Impl:
         )
         return raw
 
+    def reconnect(self) -> dict:
+        """Leave the session and enter it again on the same Gateway object (what an
+        application does after a connection loss): the listen generator is finished,
+        `async with gateway` is exited and entered.  Without persistence nothing of
+        the gateway state may change (model: OReconnect is the identity)."""
+        before = snapshot(self.gw)
+        exc = None
+
+        async def _cycle():
+            if self._agen is not None:
+                await self._agen.aclose()
+            async with self.gw:
+                pass
+            async with self.gw:
+                pass
+
+        try:
+            self.loop.run_until_complete(_cycle())
+            outcome = ""
+        except Exception as e:  # noqa: BLE001
+            exc = e
+            outcome = "E " + show_exn(e) + " || "
+        self._agen = None
+        raw = {"kind": "reconnect", "exc": exc, "writes": [], "faults": [], "before": before,
+               "after": snapshot(self.gw)}
+        self._record("X", outcome + show_world(self.gw), raw)
+        return raw
+
     def set_version(self, v: str) -> None:
         self._record(enc_oracle(v, local_now()), "")
         try:
